@@ -24,6 +24,7 @@ class InvalidRun(Exception):
 
 
 CTX = None
+RUN_CACHE = {}
 
 
 class Ctx(object):
@@ -338,7 +339,15 @@ class NFunc(object):
             w_i, f_i = inds[0]
             f_i.forced[_key(xs)] = -sum(w * f.member.grad(xs) for w, f in ops) / w_i
             return xs
-        xs, duals = minimise_sum(leaves)
+        # the minimiser depends on the members only, not on the scale of the start: the k-th such problem of an execution
+        # has the same answer in every execution of one run_numeric (same seeds, same members)
+        CTX.n_min = getattr(CTX, "n_min", 0) + 1
+        ck = ("min", CTX.n_min, tuple((round(w, 12), f.member.describe()) for w, f in leaves))
+        if ck in RUN_CACHE:
+            xs = RUN_CACHE[ck]
+        else:
+            xs, duals = minimise_sum(leaves)
+            RUN_CACHE[ck] = xs
         # force the (sub)gradients of the non-smooth terms at xs so that the total (sub)gradient is zero
         smooth = [(w, f) for w, f in leaves if not f.member.multivalued]
         rough = [(w, f) for w, f in leaves if f.member.multivalued]
@@ -409,6 +418,8 @@ def member_cvx(m, x):
             raise Unsupported("non-convex quadratic")
         Qs = (m.Q + m.Q.T) / 2 + 1e-14 * np.eye(m.dim)
         return 0.5 * cp.quad_form(x - m.c, cp.psd_wrap(Qs)) + m.b0, []
+    if isinstance(m, M.LinearFunction):
+        return m.a @ x + m.b0, []
     if isinstance(m, M.Huber):
         return m.w * 0.5 * cp.sum(cp.huber(m.A @ x - m.b, m.delta)), []
     if isinstance(m, M.LogSumExp):
@@ -850,6 +861,7 @@ def run_numeric(func_module, func_name, kwargs, member_seed, dir_seed, dim, adve
         if k_ in accepted:
             call_kw[k_] = v_
     free_cache = {"z": None}
+    RUN_CACHE.clear()
 
     def execute(scale, free):
         global CTX
